@@ -30,7 +30,7 @@ US = D.US
 DAY = 86400 * US
 YMAX = Z.YMAX_QUICK
 WAYS = ("copy", "deepcopy", "p0", "p1", "p2", "p3", "p4", "p5")
-RULE = ("values that use the hand-rebuilt state x {copy, deepcopy, pickle protocol 0..5}: DateTime with fold 0 and 1 on "
+RULE = ("values that use the hand-rebuilt state x {copy, deepcopy, pickle protocol 0..5} x {pendulum class, user-defined subclass (every fourth op): the type must be preserved}: DateTime with fold 0 and 1 on "
         "lo/mid/hi-1us (and the unambiguous neighbours) of overlaps and gaps of every zone that has them (quick: 3 per zone, "
         "thorough: 24 per zone, 8x for the special zones), naive, FixedTimezone with default/custom/unicode names, foreign tzinfo (zoneinfo.ZoneInfo, "
         "datetime.timezone); Duration over every subset of the 9 constructor arguments x {all +, all -, mixed signs}, "
